@@ -3,8 +3,10 @@ from vlib.common import nt_len, NOTE, SCHED_TRUSTED
 _COQ = ["Common/ListLemmas.v", "RefCount/Model.v", "RefCount/Spec.v", "RefCount/Proofs.v"]
 _RULE = ("implementation-driven random gate-level histories of RefCount (SetContext, AddRef with nil/logging/released-calling "
          "callbacks, Ref.Release in two segments incl. double releases, released() from outside and from under the mutex, resolve "
-         "goroutines stepped through their first select, resolver returns with/without release function and error, store sections, root contexts cancelled by their owner, "
-         "Wait, WaitWithReleased and Access consumers with cancellation, Access callbacks returning before and after an invalidation "
+         "goroutines stepped through their first select, resolver returns with/without release function and error (a failing resolver returns the empty value "
+         "3 times out of 4, else its usual value), store sections, root contexts cancelled by their owner, "
+         "Wait, Resolve, WaitWithReleased (+ the lines of ResolveWithReleased replicated), ResolveWithReleased and Access consumers with cancellation, "
+         "release through the function Resolve/ResolveWithReleased returned, Access callbacks returning before and after an invalidation "
          "incl. the ABA shape in a configuration where the resolver returns a constant value) + corpus; distinct = distinct event sequence; non-trivial = >= 10 events")
 
 
@@ -41,8 +43,9 @@ _TRUSTED = SCHED_TRUSTED + [
     "modelled, not verified: context.WithCancel (a resolve context is cancelled by its cancel function or, synchronously, when the owner cancels the root context it derives from: event 14), sync.Mutex.TryLock succeeds exactly when no section is running (one segment at a time), CContainer.SetValue as an assignment",
 ]
 _ASSUME = ["C09's progress clause reads 'has a context' as: a context is installed and its owner has not cancelled it (with a cancelled, not cleared, root context resolve() may return without calling the resolver)",
-           "the resolver returns value g+1 (never the empty value) and error codes other than context.Canceled",
-           "consumer kind 1 = WaitWithReleased + the six lines of ResolveWithReleased replicated in the harness",
+           "the resolver returns value g+1, or - only together with an error - the empty value (`return zero, rel, err`); never the empty value without an error (the target container could not tell it from 'nothing resolved'); error codes other than context.Canceled",
+           "at most one ResolveWithReleased call whose reference the harness does not know yet is in flight at a time (the goroutine spawned by its callback is attributed to it)",
+           "consumer kind 1 = WaitWithReleased + the six lines of ResolveWithReleased replicated in the harness; kind 3 = Resolve, kind 4 = ResolveWithReleased themselves (same model as kinds 0 / 1)",
            "the reference of an Access call is private to it (no other actor calls its Release)",
            "the nonce does not wrap (2^32 restarts)"]
 _TECH = "Coq inductive invariant over a gate-level interleaving model + schedule-controlled differential correspondence (synctest) against the Go code"
@@ -65,7 +68,7 @@ PROPS = {
                          "keep+resolved+no error), or the store section of a superseded goroutine (its own, never delivered result). The codec "
                          "produces only generation-unique resolver values (lemma about Spec.hstep). Model tied to the code by scheduled differential "
                          "correspondence; monitors (once; target/refs at release; allowed causes; no leak) run on the implementation's observations.",
-                    note=NOTE + "Resolver values are generation-unique (g+1) and never empty. "
+                    note=NOTE + "Resolver values are generation-unique (g+1), or empty together with an error (then 'the target does not hold that value' is vacuous: the target never holds the empty value; what is proved and monitored is: the target does not hold g+1 and no reference in the set still has the result as last notification). "
                                 "'Shortly after' = by an enabled internal step (store section) or within the same critical section. Gate placement trusted.",
                     technique=_TECH)),
     "C09": dict(pid=9, coq=_COQ + ["RefCount/ProofsC08.v", "RefCount/ProofsC09.v", "RefCount/Props_C09.v"], props_file="RefCount/Props_C09.v", models=_MODELS, trusted=_TRUSTED, assumptions=_ASSUME,
